@@ -45,14 +45,16 @@ type Host struct {
 	Prio int
 }
 type Case struct {
-	Kind      string // next | mutate | transient | order | resume | backoff
-	Limit     int
-	Mirrors   []Host  `json:",omitempty"`
-	UpPrio    int     `json:",omitempty"`
-	Replies   []Reply `json:",omitempty"`
-	NoMirrors bool    `json:",omitempty"` // request kind: true = ManifestDelete (mutating), false = ManifestGet
-	API       string  `json:",omitempty"`
-	Drops     int     `json:",omitempty"`
+	Kind       string // next | mutate | transient | order | resume | backoff
+	Limit      int
+	Mirrors    []Host  `json:",omitempty"`
+	UpPrio     int     `json:",omitempty"`
+	Replies    []Reply `json:",omitempty"`
+	NoMirrors  bool    `json:",omitempty"` // request kind: true = ManifestDelete (mutating), false = ManifestGet
+	API        string  `json:",omitempty"`
+	Drops      int     `json:",omitempty"`
+	ResumeRA   bool    `json:",omitempty"` // resume cases: the truncated responses carry Retry-After: 1
+	MirrorGone int     `json:",omitempty"` // resume cases: a mirror answers 404 for the blob after this many requests (0 = never)
 }
 
 var hostNames = []string{"reg.example", "m1.example", "m2.example"}
@@ -441,13 +443,20 @@ func runOrderBackoff(c Case, res *lib.Result) []string {
 func runResume(c Case, res *lib.Result) {
 	t := newTopo(c)
 	big := bytes.Repeat([]byte("abcdefghij"), 50)
-	t.regs[0].PutBlob("repo", big)
+	for _, rg := range t.regs { // mirrors hold the blob too: truncations then spread over several hosts
+		rg.PutBlob("repo", big)
+	}
 	gets := 0
+	perHost := map[int]int{}
 	t.hook = func(hi int, req *http.Request, n int) *http.Response {
 		if !strings.Contains(req.URL.Path, "/blobs/") || req.Method != "GET" {
 			return nil
 		}
 		gets++
+		perHost[hi]++
+		if hi != 0 && c.MirrorGone > 0 && perHost[hi] > c.MirrorGone {
+			return memrt.Resp(404, nil, []byte(`{"errors":[{"code":"BLOB_UNKNOWN"}]}`))
+		}
 		if gets <= c.Drops {
 			start := 0
 			h := map[string]string{}
@@ -459,6 +468,9 @@ func runResume(c Case, res *lib.Result) {
 			}
 			body := big[start:]
 			h["Content-Length"] = fmt.Sprint(len(body))
+			if c.ResumeRA {
+				h["Retry-After"] = "1"
+			}
 			rs := memrt.Resp(status, h, nil)
 			rs.Body = &memrt.DropBody{B: body, K: 7}
 			rs.ContentLength = int64(len(body))
@@ -693,6 +705,17 @@ func Run(o lib.Opts) {
 	for d := 0; d <= 6; d++ {
 		all = append(all, Case{Kind: "resume", Limit: 4, Drops: d})
 	}
+	// the same with a mirror that serves (and truncates) the blob as well, and with truncated responses that ask for a pause:
+	// every re-request of the body counts against the one attempt budget of the logical request
+	for _, d := range []int{3, 5, 8, 12} {
+		all = append(all, Case{Kind: "resume", Limit: 4, Drops: d, Mirrors: []Host{{1, 1}}, UpPrio: 5})
+	}
+	all = append(all, Case{Kind: "resume", Limit: 3, Drops: 9, Mirrors: []Host{{1, 1}, {2, 2}}, UpPrio: 5})
+	for _, g := range []int{1, 2, 3} { // the mirror loses the blob after g requests: the truncations continue at the next host
+		all = append(all, Case{Kind: "resume", Limit: 3, Drops: 12, Mirrors: []Host{{1, 1}}, UpPrio: 5, MirrorGone: g},
+			Case{Kind: "resume", Limit: 5, Drops: 20, Mirrors: []Host{{1, 1}, {2, 2}}, UpPrio: 5, MirrorGone: g})
+	}
+	all = append(all, Case{Kind: "resume", Limit: 2, Drops: 9, ResumeRA: true})
 	// backoff series: fixed ones (incl. one server-requested delay of 1 s), then generated
 	all = append(all, Case{Kind: "backoff", Limit: 5, Drops: 8, Replies: []Reply{{K: "status", Code: 429}, {K: "status", Code: 500}, {K: "ok"}, {K: "net"}, {K: "status", Code: 502}, {K: "status", Code: 504}, {K: "status", Code: 408}, {K: "ok"}}})
 	all = append(all, Case{Kind: "backoff", Limit: 4, Drops: 2, Replies: []Reply{{K: "status", Code: 429, RA: 1}, {K: "status", Code: 429}, {K: "ok"}}})
